@@ -263,7 +263,9 @@ Inductive op :=
 | OAllocate (h n : nat)
 | OReallocate (h n : nat)
 | OPushBack (h : nat) (v : Z)
-| ODestroy (h : nat).
+| ODestroy (h : nat)
+| OWrite (h k : nat) (v : Z)      (* write(k, v) / operator[] / front / back / iterators, k < size *)
+| OReserve (h n : nat).           (* reserve(s) { reallocate(s); reallocate(0); } *)
 
 Definition step (fx : fixes) (s : state) (o : op) : res :=
   match o with
@@ -276,6 +278,8 @@ Definition step (fx : fixes) (s : state) (o : op) : res :=
   | OReallocate h n => reallocate fx s h n
   | OPushBack h v => push_back fx s h v
   | ODestroy h => destroy s h
+  | OWrite h k v => if Nat.ltb k (h_size (geth s h)) then ret (write_cell s h k v) else ret s
+  | OReserve h n => bind (reallocate fx s h n) (fun s1 => reallocate fx s1 h 0)
   end.
 
 Definition run (fx : fixes) (s : state) (ops : list op) : state :=
